@@ -68,6 +68,9 @@ def wrap(v, name='arg', alphabet=None):
         return int(v)
     if isinstance(v, (numpy.floating,)):
         return float(v)
+    if isinstance(v, torch.dtype):
+        from .values import DType
+        return DType(str(v).replace('torch.', ''))
     return v
 
 
@@ -158,6 +161,8 @@ def to_json(v):
         return float(v)
     if isinstance(v, (int, float, str, bool)) or v is None:
         return v
+    if isinstance(v, torch.dtype):
+        return {'__dtype__': str(v).replace('torch.', '')}
     if hasattr(v, 'to_json'):
         return v.to_json()
     return {'__repr__': repr(v)}
@@ -169,6 +174,8 @@ def from_json(v, factories=None):
             from .models import FACTORIES
             if v['__factory__'] in FACTORIES:
                 return FACTORIES[v['__factory__']](v)
+        if '__dtype__' in v:
+            return getattr(torch, v['__dtype__'])
         if '__tensor__' in v:
             t = torch.tensor(v['__tensor__'], dtype=getattr(torch, v['dtype']))
             return t.reshape(v['shape'])
